@@ -13,7 +13,7 @@ import json, os, re, shutil, subprocess, sys, tempfile
 
 def sh(cmd, cwd=None, timeout=600):
     try:
-        r = subprocess.run(cmd, shell=True, cwd=cwd, stdout=subprocess.PIPE, stderr=subprocess.STDOUT, text=True, timeout=timeout)
+        r = subprocess.run(cmd, shell=True, cwd=cwd, stdout=subprocess.PIPE, stderr=subprocess.STDOUT, text=True, errors="replace", timeout=timeout)
         return r.returncode, r.stdout
     except subprocess.TimeoutExpired as e:
         return 124, (e.stdout or "") + "\nTIMEOUT"
